@@ -10,12 +10,20 @@
     is the user's objective / gradient times the factor the scaler returned (C05 at scale `s`):
     the run *is* a run on `s·f`, `s·∇f`;
   * `target_on_unscaled`: a target message means `fun / s ≤ ftarget`.
-  The step-for-step equality of the two complete runs (same points, same result) is decided
-  by the correspondence and the pair-run search, bit for bit.
+  * `scaler_equivalence`: the run with a scaler returning `s` and the run WITHOUT scaler on the
+    explicitly scaled objective `s·f`, `s·∇f` return the same result — same error, or equal `x`,
+    `fun`, `jac`, counters, iteration count, message, success flag and correction pairs — for every
+    objective, kernel, stepper, box, start and budget (callable gradient, no target, no
+    redefinition, fresh run; laws used: `a·1 = a` and `¬ a < a`, both exact in IEEE arithmetic).
+    Proved by a simulation over the whole driver (Proofs/Scale.lean): the two runs go through
+    states that are equal except inside the function wrapper, where run A holds the unscaled
+    values and the factor `s`, run B the scaled values and the factor `1`.
+  The same equality is checked bit for bit on pairs of real runs by the search.
 -/
 import LbfgsbVerif.Proofs.C17
 import LbfgsbVerif.Props.C04
 import LbfgsbVerif.Props.C05
+import LbfgsbVerif.Proofs.Scale
 
 namespace Lbfgsb.C17
 open Lbfgsb
@@ -107,5 +115,28 @@ theorem target_on_unscaled (u : User α ε) (o : Oracles α δ) (c : Cfg α) (r 
     (h : minimize u o c = .ok (r, s)) (hm : r.msg = .target) :
     ∃ t, s.ftarget = some t ∧ ¬ t < r.f / s.sf.scale :=
   (C04.report_truthful u o c r s h).2.1 hm
+
+/-- **C17 (5) — the equivalence.** -/
+theorem scaler_equivalence (u : User α ε) (o : Oracles α δ) (c : Cfg α) (s : α)
+    (hS : c.hasScaler = true) (hck : c.checkpoint = none) (hft : c.ftarget = none)
+    (hm : c.mode = .callable) (hU : c.hasUpdate = false) (hsc : ∀ x g, u.scaler x g = .ok s)
+    (hmul1 : ∀ a : α, a * 1 = a) :
+    RelE (fun p q => p.1 = q.1) (minimize u o c)
+      (minimize (scaledUser u s) o { c with hasScaler := false }) :=
+  minimize_scaled (fun a => lt_irrefl a) u o c _ ⟨rfl, hS, hck, hft, hm, hU, hsc, hmul1⟩
+
+/-! ### Non-vacuity: the ℤ example of C05 (scaler returning 3) meets the hypotheses, and the two
+runs return the same result -/
+section nonvacuous
+example : C05.cZ.hasScaler = true ∧ C05.cZ.checkpoint = none ∧ C05.cZ.ftarget = none ∧
+    C05.cZ.mode = .callable ∧ C05.cZ.hasUpdate = false ∧ (∀ x g, C05.uZ.scaler x g = .ok 3) ∧
+    (∀ a : ℤ, a * 1 = a) := ⟨rfl, rfl, rfl, rfl, rfl, fun _ _ => rfl, Int.mul_one⟩
+
+example : ∃ r s r' s', minimize C05.uZ C05.oZ C05.cZ = .ok (r, s) ∧
+    minimize (scaledUser C05.uZ 3) C05.oZ { C05.cZ with hasScaler := false } = .ok (r', s') ∧
+    r.x = r'.x ∧ r.f = r'.f ∧ r.jac = r'.jac ∧ r.nfev = r'.nfev ∧ r.sk = r'.sk ∧ r.f = 3 := by
+  refine ⟨_, _, _, _, rfl, rfl, ?_⟩
+  decide
+end nonvacuous
 
 end Lbfgsb.C17
